@@ -577,3 +577,55 @@ def length(ctx, p, n, samples, net):
         ctx.check('chord<=length', ctx.le(chord, L), nonlinear=nl)
     srf = ctx.geomdl('BSpline').Surface()
     ctx.check_raises('non_curve_rejected', ctx.geomdl('exceptions').GeomdlException, ops.length_curve, srf)
+
+
+# ------------------------------------------------------------------------------------------------
+def _sampled_shapes(tier):
+    out = [dict(p=2, n=4, clamped=True, samples=3, order='ascending'), dict(p=2, n=4, clamped=True, samples=3, order='descending'),
+           dict(p=2, n=4, clamped=False, samples=3, order='default'), dict(p=1, n=3, clamped=False, samples=4, order='default'),
+           dict(p=3, n=5, clamped=False, samples=3, order='descending')]
+    if tier == 'thorough':
+        out += [dict(p=3, n=6, clamped=True, samples=5, order='descending'), dict(p=2, n=5, clamped=False, samples=5, order='default')]
+    return out
+
+
+@scenario('C18', fns=['BSpline.Curve.evaluate', 'abstract.Curve.evalpts', 'helpers.find_spans', 'helpers.basis_functions',
+                      'evaluators.CurveEvaluator.evaluate', 'abstract.SplineGeometry.bbox'],
+          quick=lambda: _sampled_shapes('quick'), thorough=lambda: _sampled_shapes('thorough'))
+def sampled_points_in_hull(ctx, p, n, clamped, samples, order):
+    """requires: a non-rational curve on concrete uniform knots (clamped: normalised; unclamped: normalize_kv=False, domain
+                 [U[p], U[n]] strictly inside the knot range), symbolic control points; the sampled range is the default
+                 one, or an explicit ascending / descending [start, stop]
+       ensures : every sampled point is the convex combination sum B_i(t_k) P_i of the control points active at its own
+                 parameter t_k (spec basis: non-negative, sums to one), where t_k are the evenly spaced parameters of the
+                 requested range - hence inside the hull and the bounding box; the number of samples is as requested"""
+    if clamped:
+        U = [ctx.lit(0)] * (p + 1) + [ctx.lit(Fraction(k, n - p)) for k in range(1, n - p)] + [ctx.lit(1)] * (p + 1)
+    else:
+        m = n + p
+        U = [ctx.lit(Fraction(3 * k, 2)) for k in range(m + 1)]          # knots 0, 3/2, 3, ...: not normalised
+    lo, hi = U[p], U[n]
+    P = shapes.net(ctx, 'P', n, 2)
+    crv = shapes.build_curve(ctx, p, U, P, None, normalize_kv=clamped)
+    crv.sample_size = samples
+    if order == 'default':
+        pts = crv.evalpts
+        a, b = lo, hi
+    elif order == 'ascending':
+        crv.evaluate(start=lo, stop=hi)
+        pts = crv.evalpts
+        a, b = lo, hi
+    else:
+        crv.evaluate(start=hi, stop=lo)
+        pts = crv.evalpts
+        a, b = hi, lo
+    ctx.check_true('samples.count', len(pts) == samples, 'len(evalpts)=%d, requested %d' % (len(pts), samples))
+    for k in range(samples):
+        t = a + (b - a) * Fraction(k, samples - 1)
+        s = spec.span_spec(p, U, n, t)
+        row = spec.basis_row(p, U, s, t)
+        lam = [row[i] for i in range(s - p, s + 1)]
+        ctx.check_true('sample%d.weights_nonnegative_sum_one' % k,
+                       all(ctx.as_fraction(x) >= 0 for x in lam) and sum(ctx.as_fraction(x) for x in lam) == 1)
+        want = [sum((lam[i] * P[s - p + i][d] for i in range(p + 1)), ctx.lit(0)) for d in range(2)]
+        ctx.check_eq_vec('sample%d=convex_combination_of_active_points' % k, pts[k], want)
